@@ -95,6 +95,7 @@ struct Context {
     ls_len: usize,
     ss_ptr: usize,
     di_len: usize,
+    rl_len: usize,
     ip: usize,
     mode: ContextMode,
 }
@@ -506,6 +507,7 @@ impl State {
             ls_len: self.loops.len(),
             ss_ptr: self.special.len(),
             di_len: self.dict.len(),
+            rl_len: self.reverse_log.as_ref().map(|log| log.len()).unwrap_or(0),
             ip: self.code_origin(),
             mode,
         };
@@ -555,6 +557,10 @@ impl State {
                     let val = self.pop_data()?;
                     self.code_emit_value(val)?;
                 }
+            }
+            // the block's code is gone, nothing of its evaluation can be stepped back
+            if let Some(log) = self.reverse_log.as_mut() {
+                log.truncate(self.ctx.rl_len);
             }
         }
         self.ctx = prev;
